@@ -8,15 +8,16 @@ TRUSTED = [
     "hand-written model props/C15/coq/Model.v: file set of one fraction, operation programs of NewActive / Seal+Release / "
     "Active.Suicide / Sealed.Suicide / removeFractionFiles, loader classification, shrinkSizes, NewSealed fast path "
     "(tied to /repo by the correspondence run, not verified code)",
-    "hand-written models of the extension: ModelPar.v (the whole directory: one deletion goroutine per outsider of a retention pass, "
-    "scheduler choices, crash after any operation of any goroutine, interruptible loader; each fraction is a Model.st), ModelUse.v "
+    "hand-written models of the extension: ModelPar.v (the whole directory: per retention pass ONE goroutine deleting its outsiders one after "
+    "another, oldest first - the code after fix 14be38b -, several passes in flight, background seal/Release goroutines, scheduler choices, "
+    "crash after any operation of any goroutine, interruptible loader; each fraction is a Model.st; drun_v0 = one goroutine per outsider, the "
+    "code before the fix), ModelUse.v "
     "(use lock of a fraction: RLock / flag check / provider release of readers against Lock, set flag, Unlock, renames and removals of "
     "Suicide), ModelPL.v (.frac-cache save as create-temp / write / rename WITHOUT any fsync, power loss = lost not-yet-synced renames "
     "+ every file cut to any length; .del renames and removals without directory sync) - tied to /repo by the classes par:*, use:*, "
     "cache:save-ops, cache:powerloss",
     "crash model: process crash after any single create/rename/unlink (harness/internal/crashfs rebuilds the directory from the strace log); "
-    "operations of different fractions are independent, so a re-ordering of the traced log that keeps every fraction's own order is a "
-    "schedule the real process could have run; power loss: directory operations reach the disk in issue order (journalled metadata), file "
+    "crash points inside a pass are the prefixes of the traced (sequential) log; power loss: directory operations reach the disk in issue order (journalled metadata), file "
     "data only up to the last fsync (crashfs PowerLoss); without the ordering assumption the .del protocol is NOT safe "
     "(C15_del_powerloss_unordered_refuted: a lone .sdocs, loader Fatal)",
     "Go harness harness/cmd/hC15 + storectl (real FracManager in child processes) + strace",
@@ -27,6 +28,10 @@ TRUSTED = [
 ASSUME = [
     "one fraction's files are only touched by that fraction's own life-cycle steps (fractions are independent on disk; made explicit by ModelPar.v: "
     "a directory event changes exactly one component)",
+    "for 'oldest first in every crash state' (C15_parallel_retention_prefix_at_restart / _prefix_eventually): ONE retention pass in flight on a "
+    "directory of clean fractions; with two passes in flight (the first one's goroutine still waiting for a reader or a seal when the next "
+    "maintenance step starts another) a newer fraction can be deleted first: C15_parallel_retention_overlapping_passes_refuted, replayed on the "
+    "real code by the counter overlap_candidate_older_served_newer_gone (candidate finding, reported)",
     "the manager's list is in creation order when a retention pass runs (seals finish in creation order; otherwise the restart lists a younger "
     "sealed fraction before an older unsealed one: C15_load_order_unordered_refuted)",
     "sizes reported by Info do not change during one retention pass",
